@@ -23,7 +23,8 @@ package scanner
 //@ pred StackWF(s *Scanner) = s.step != nil && need(s.step) <= len(s.stepStack) && (kw(s.step) == 1 ==> s.lastEnd >= 0)
 //@     && (forall k :: 0 <= k && k < len(s.stepStack) ==> s.stepStack[k] != nil && need(s.stepStack[k]) <= k && open(s.stepStack[k]) == 0 && back(s.stepStack[k]) <= 1 && strict(s.stepStack[k]) == 0 && (kw(s.stepStack[k]) == 1 ==> s.lastEnd >= 0))
 //@     && (below(s.step) == 1 ==> leaf(s.stepStack[len(s.stepStack)-1]) == 1)
-//@     && (forall k :: 0 <= k && k < len(s.stepStack) ==> crank(s.stepStack[k]) <= 2 && orank(s.stepStack[k]) <= 30 && noeof(s.stepStack[k]) == 0 && (below(s.stepStack[k]) == 1 ==> leaf(s.stepStack[k-1]) == 1))
+//@     && (forall k :: 0 <= k && k < len(s.stepStack) ==> crank(s.stepStack[k]) <= 2 && orank(s.stepStack[k]) <= 30 && noeof(s.stepStack[k]) == 0)
+//@     && (forall j, k :: 0 <= j && k == j + 1 && k < len(s.stepStack) && below(s.stepStack[k]) == 1 ==> leaf(s.stepStack[j]) == 1)
 
 //@ pred EventWF(s *Scanner) = len(s.stack) <= 1
 //@     && (len(s.stack) == 1 ==> isBegin(s.stack[0].type_))
